@@ -3,7 +3,11 @@
 SPEC  Concurrency.tla: lock scopes of Cluster.Alerts/alertsHandler and informer GetMetric/Shutdown at
       statement granularity, all interleavings by TLC (as-fixed configuration must satisfy NoIndexPanic,
       NoTear, NoNilUse; the as-coded-at-pinned-commit configuration is refuted and its counterexamples are
-      the gated attack schedules); Tracker.tla (non-eager) for the operation table.
+      the gated attack schedules); start-up/shutdown life cycle (both ways from ready() into Shutdown(), a user
+      Shutdown() at any time: NoSelfWait, EventuallyStopped, UserShutdownReturns), the informer fan-out of
+      Cluster.run() (NoLoopVarRace, EveryInformerPushed) and concurrent failure checks over Window.Distribution
+      (ScratchIsPrivate, VerdictFromWindow), each with the alternative design refuted; Tracker.tla (non-eager)
+      for the operation table.
 R     gated: the counterexample interleavings are forced on the real code through verifGate hooks.
 V     free-running executions under the Go race detector (tracker, metrics/monitor, alerts, informers,
       shutdown while in use); every recorded result is judged by TLC (ConcurrencyObs.tla); race reports whose
@@ -18,21 +22,29 @@ import vcheck
 
 
 def run(ctx):
-    ctx.rule = ("lifecycle: a peer whose consensus never becomes ready must finish shutting down (ReadyTimeout 300 ms, Done() "
-                "and a later Shutdown() within 10 s); gated: 3 Alerts/alertsHandler schedules (append in the sizing gap with 0 and 3 prior alerts, reset in "
+    ctx.rule = ("lifecycle: a peer whose consensus never becomes ready (ReadyTimeout 300 ms), or whose first consensus.Peers() call "
+                "after becoming ready fails, must finish shutting down (Done() and a later Shutdown() within 10 s); fan-out: a Cluster "
+                "with 3 and with 2 informers publishes every informer's metric within 10 s of start-up; failure checks: windows of 8 "
+                "and 30 ping metrics, 3 versions each, per version 105 FailedMetric calls (5 in a row, 4 x 25 concurrent) after a "
+                "silence >= 30x the longest gap, then concurrent CheckPeers; gated: 3 Alerts/alertsHandler schedules (append in the sizing gap with 0 and 3 prior alerts, reset in "
                 "the gap at maxAlerts+1) and 2 informer schedules (shutdown between nil test and use), from TLC "
                 "counterexamples of the as-coded model; free-running under -race: tracker (6 callers x 150 random "
                 "Track/Untrack/Status/StatusAll/Recover/RecoverAll, with and without concurrent Shutdown), monitor "
                 "(LogMetric/LatestMetrics/MetricNames + checker), alerts (2500 deliveries vs 3 readers), informers "
                 "(GetMetric x4 vs Shutdown, 50 rounds each); evaluations = calls issued; a case is one scenario run")
     ctx.assumptions = ["data races are observed by the Go race detector on the executed interleavings only",
-                       "a race report counts when one of the two racing accesses is in ipfs-cluster source",
+                       "a race report counts when one of the two racing accesses is in ipfs-cluster source, or in a Go standard "
+                       "library / gonum floats routine called directly from ipfs-cluster source on memory the caller handed to it",
+                       "a failure verdict on an unchanged window only moves from not-failed to failed as time passes (expiry, phi grows with the silence)",
                        "the CRDT batching queue is stressed with the C02 rig (TestStressConcurrent: 7 callers x 60 calls, Shutdown mid-burst)"]
     # SPEC
     ctx.tlc("Concurrency.tla", "Concurrency_alerts.cfg", workers=4, timeout=600)
     ctx.tlc("Concurrency.tla", "Concurrency_informer.cfg", workers=2, timeout=600)
     ctx.tlc("Concurrency.tla", "Concurrency_lifecycle.cfg", workers=2, timeout=600)
-    for cfg in ("Concurrency_alerts_ascoded.cfg", "Concurrency_informer_ascoded.cfg", "Concurrency_lifecycle_ascoded.cfg"):
+    ctx.tlc("Concurrency.tla", "Concurrency_fanout.cfg", workers=2, timeout=600)
+    ctx.tlc("Concurrency.tla", "Concurrency_accrual.cfg", workers=2, timeout=600)
+    for cfg in ("Concurrency_alerts_ascoded.cfg", "Concurrency_informer_ascoded.cfg", "Concurrency_lifecycle_ascoded.cfg",
+                "Concurrency_lifecycle_peerserr_inline.cfg", "Concurrency_fanout_shared.cfg", "Concurrency_accrual_memo.cfg"):
         r = ctx.tlc("Concurrency.tla", cfg, workers=1, timeout=600, expect_violation=True, count=False)
         if not r.violation:
             raise vcheck.Infra("the as-coded model %s is expected to be refuted (attack schedules come from it)" % cfg)
@@ -108,7 +120,15 @@ def run(ctx):
     v = json.loads(open(verdict).readline())
     recs = [json.loads(l) for l in open(trace)]
     ctx.extra["results_judged_by_tlc"] = v["n"]
-    ctx.traces_validated += v["n"] - len(set(v["panicked"]) | set(v["torn"]) | set(v["noted"]))
+    ctx.traces_validated += v["n"] - len(set(v["panicked"]) | set(v["torn"]) | set(v["noted"]) | set(v["stuck"]) |
+                                         set(v["unpushed"]) | set(v["unstable"]))
+    kinds = {}
+    for rec in recs:
+        kinds[rec["kind"]] = kinds.get(rec["kind"], 0) + 1
+    ctx.extra["results_by_kind"] = kinds
+    for need in ("lifecycle", "publish", "check"):
+        if not kinds.get(need):
+            raise vcheck.Infra("no %s observations recorded" % need)
     for i in v["panicked"]:
         rec = recs[i - 1]
         kind = "deadlock" if rec["panic"].startswith("deadlock") else "panic"
@@ -119,6 +139,19 @@ def run(ctx):
     for i in v["noted"]:
         rec = recs[i - 1]
         ctx.violation("C18:result:%s:%s" % (rec["kind"], rec["scenario"]), "inconsistent result under concurrency: %s" % rec["notes"][:3], slim(rec))
+    for i in v["stuck"]:
+        rec = recs[i - 1]
+        ctx.violation("C18:deadlock:lifecycle:%s" % rec["scenario"], "deadlock in lifecycle/%s: done=%s later_shutdown_returned=%s %s"
+                      % (rec["scenario"], rec["done"], rec["later"], rec["result"][:200]), slim(rec))
+    for i in v["unpushed"]:
+        rec = recs[i - 1]
+        missing = sorted(set(rec["want"]) - set(rec["seen"]))
+        ctx.violation("C18:result:publish:%s" % rec["scenario"], "a Cluster started with informers %s never published %s (published: %s)"
+                      % (rec["want"], missing, rec["seen"]), slim(rec))
+    for i in v["unstable"][:5]:
+        rec = recs[i - 1]
+        ctx.violation("C18:result:check:accrual", "a failure check of an unchanged metrics window answered not-failed after an earlier "
+                      "check of the same window had answered failed (run %s, window version %s)" % (rec["run"], rec["ver"]), slim(rec))
     # the operation table under free-running concurrent use, validated step by step against OpTracker.tla
     from props import optrace
     optrace.run(ctx)
@@ -131,16 +164,31 @@ def slim(rec):
     return r
 
 
+def _callers_memory(fn):
+    """Frames that only touch memory handed to them by their caller: the Go runtime and standard library (map, slice,
+    container/ring, sort ... no dot in the first element of the import path) and gonum's float-slice routines."""
+    pkg = fn.split("(")[0]
+    root = pkg.split("/")[0]
+    if "/" not in pkg:
+        root = pkg.split(".")[0]
+    stdlib = "." not in root and root not in ("verifharness", "main")
+    return stdlib or fn.startswith("gonum.org/v1/gonum/floats.") or fn.startswith("gonum.org/v1/gonum/internal/asm/")
+
+
 def race_reports(out, repo):
-    """DATA RACE blocks whose racing access (first frame of one of the two access stacks) is in ipfs-cluster source."""
+    """DATA RACE blocks whose racing access is in ipfs-cluster source: the first frame of one of the two access stacks,
+    after skipping library routines that work on memory their caller handed to them (runtime map/slice operations,
+    standard-library containers, gonum floats), is ipfs-cluster code."""
     found = {}
     for blk in re.findall(r'WARNING: DATA RACE\n(.*?)\n==================', out, re.S):
         tops = []
         for sec in re.split(r'\n\n', blk):
             if re.match(r'(Read|Write|Previous read|Previous write|Atomic)', sec.strip()):
-                m = re.search(r'\n\s+(\S+)\(\)\n\s+(\S+):(\d+)', "\n" + sec)
-                if m:
+                for m in re.finditer(r'\n\s+(\S+)\(\)\n\s+(\S+):(\d+)', "\n" + sec):
+                    if _callers_memory(m.group(1)):
+                        continue
                     tops.append((m.group(1), m.group(2)))
+                    break
         mine = [t for t in tops if t[1].startswith(repo + "/") or "github.com/ipfs/ipfs-cluster" in t[0]]
         mine = [t for t in mine if "verifharness" not in t[0]]
         if mine:
